@@ -63,6 +63,33 @@ class DynWStub(_WMixin, DynamicOrderSimulation):
         self.next_agent = [aid(i) for i in self.row()[2]]
 
 
+SHIFT = 2000000          # observation shift of the intermediate wrapper below
+
+
+def shift_obs_wrapper(inner):
+    """A SARWrapper between the scripted simulation and the wrapper under test: every observation
+    o becomes o + SHIFT, the agents' observation spaces and declared null observations are shifted
+    likewise (as RavelDiscreteWrapper/FlattenWrapper convert spaces and null points).  A wrapper on
+    top must take spaces and null points from THIS layer's agents, not from the innermost ones."""
+    from abmarl.sim.wrappers import SARWrapper
+
+    class ShiftObs(SARWrapper):
+        def __init__(self, sim):
+            super().__init__(sim)
+            for a in self.agents.values():
+                if hasattr(a, "observation_space"):      # get_obs shifts for every observer
+                    a.observation_space = Discrete(OBS_N, start=SHIFT)
+                    if type(a.null_observation) is int:
+                        a.null_observation = a.null_observation + SHIFT
+
+        def wrap_observation(self, from_agent, observation):
+            return observation + SHIFT
+
+        def unwrap_observation(self, from_agent, observation):
+            return observation - SHIFT
+    return ShiftObs(inner)
+
+
 def exc_resp(e):
     from .runner import exc_code
     return [9, exc_code(e)]
